@@ -50,6 +50,9 @@ def split_stdout(out):
     return items
 
 
+SUPER = list("⁰¹²³⁴⁵⁶⁷⁸⁹")
+
+
 def expected_from_library(q, reply, exact, disp):
     items = []
     src = q
@@ -103,6 +106,13 @@ def run(rng, tier, model_ok):
         queries.append(("0 - 1 %s/s" % u, True))
         queries.append(("1 / 1 %s" % u, False))
         queries.append(("2 m*%s" % u, False))
+    # unit powers around the places where the superscript digits change length, above and below the bar
+    for pw in [2, 3, 9, 10, 11, 12, 19, 20, 21, 99, 100, 101, 109, 110, 111, 999, 1000, 1001, 1010]:
+        queries.append(("1 m^%d" % pw, False))
+        queries.append(("3 s^-%d" % pw, True))
+        queries.append(("2 km^%d/s^%d" % (pw, pw + 1), False))
+    queries.append(("2 m^5 * 3 m^5", False))
+    queries.append(("(1 m^7)^3", True))
     qs = [q for q, _ in queries]
     lib = vlib.run_impl(["Q " + vlib.hx(q) for q in qs])
     # decimal renderings through the library's own Display with the program's spec
@@ -134,6 +144,14 @@ def run(rng, tier, model_ok):
             got_c, want_c = got, want
         if got_c != want_c:
             failures.append({"input": q, "exact": ex, "why": "printed %s, the library results render as %s" % (got[:4], want[:4])})
+        # the unit powers printed (superscript digits) are the powers of the unit, read independently of the library's Display
+        for it, r in zip(got, rep["results"]):
+            if it[0] == "line" and "ok" in r:
+                names = r["ok"][2]
+                wantp = [p for _, p, _ in names if p > 1] + [-p for _, p, _ in names if p < -1]
+                gotp = [int("".join(str(SUPER.index(c)) for c in run)) for run in re.findall("[%s]+" % "".join(SUPER), it[1])]
+                if sorted(gotp) != sorted(wantp):
+                    failures.append({"input": q, "exact": ex, "why": "printed unit powers %s, the unit has powers %s (line %r)" % (gotp, wantp, it[1])})
         # model case
         exp = [len(got)]
         for it, r in zip(got, rep["results"]):
